@@ -71,6 +71,7 @@ type lexer struct {
 	err    error
 	cancel chan struct{}
 	failed bool // the parser has reported an error
+	noeval int  // > 0 inside an operand which is not evaluated
 
 	b strings.Builder
 }
@@ -391,12 +392,15 @@ func (l *lexer) unread() {
 // has already reported an error.
 func (l *lexer) set(name, value string) {
 	vpoint(l, vSet)
-	if !l.failed {
+	if !l.failed && l.noeval == 0 {
 		l.env.Set(name, value)
 	}
 }
 
 func (l *lexer) Error(s string) {
+	if l.noeval > 0 && !strings.HasPrefix(s, "syntax error: ") {
+		return // inside an operand which is not evaluated
+	}
 	l.report(s, true)
 }
 
